@@ -1,5 +1,6 @@
 (* C26/Proofs.v — which elements become edges (per kind and option), pandapower's connected_components is a partition
    into connectivity classes on an undirected graph, distances are shortest walk weights. *)
+From Coq Require Import String.
 From Coq Require Import List Bool Arith Lia QArith Relations.
 From PPV Require Import Base.QN Base.C07Graph Base.C26Dist C07.Model C26.Model.
 Import ListNotations.
@@ -183,3 +184,22 @@ Proof.
     apply in_map_iff. exists a. auto. }
   exact (proj2 (dedup_In nat Nat.eq_dec x _) HI).
 Qed.
+
+(* ------------------------------------------------------------------ notravbuses next to out-of-service buses *)
+(* chain 0-1-2-3, bus 2 out of service *)
+Definition w_chain : net :=
+  {| buses := [{| b_id := 0; b_is := true |}; {| b_id := 1; b_is := true |}; {| b_id := 2; b_is := false |}; {| b_id := 3; b_is := true |}];
+     lines := [{| r_id := 0; r_f := 0; r_t := 1; r_is := true |}; {| r_id := 1; r_f := 1; r_t := 2; r_is := true |};
+               {| r_id := 2; r_f := 2; r_t := 3; r_is := true |}];
+     trafos := []; trafo3ws := []; imps := []; dclines := []; xwards := []; switches := []; injs := [] |}.
+Definition o_default (nt : list nat) : opts :=
+  {| o_respect := true; o_lines := IAll; o_imps := IAll; o_dclines := IAll; o_trafos := IAll; o_t3 := IAll; o_nogo := None;
+     o_notrav := Some nt; o_multi := true; o_inc_oos := false; o_switches := true; o_trafo_len := None; o_switch_len := None |}.
+(* before the repair: KeyError with the out-of-service bus next to the notravbus, a dangling adjacency entry with an
+   out-of-service notravbus; after the repair both calls return a graph whose arcs end at nodes *)
+Theorem notrav_oos_old_refuted :
+  create_nxgraph_old (o_default [1]) w_chain [1; 1; 1]%Q = Raise "KeyError"%string /\
+  (exists g, create_nxgraph_old (o_default [2]) w_chain [1; 1; 1]%Q = Ok g /\ no_dangling g = false) /\
+  (exists g, create_nxgraph (o_default [1]) w_chain [1; 1; 1]%Q = Ok g /\ no_dangling g = true) /\
+  (exists g, create_nxgraph (o_default [2]) w_chain [1; 1; 1]%Q = Ok g /\ no_dangling g = true).
+Proof. repeat split; try (eexists; split; vm_compute; reflexivity). Qed.
